@@ -44,7 +44,8 @@ Streamed forms (section 8): views with `Suspend`s whose futures complete in any 
 | `C05_stream_out_of_order`              | proved (the same after the inline scripts, clean strings; through `C07_out_of_order`) |
 | `C05_stream_html`, `C05_stream_hydrates` | proved: what the driver computes is that HTML; parsed and hydrated it adopts every node, creates none |
 | `C05_stream_ready`                     | proved: nothing pending at render time ⇒ `Agree` |
-| `compile_inOrd`, `compile_oooWf`, `compile_doc` | proved (Proofs/HydrateStream): the programs are in C07's classes; `Agree` ⇒ resolved document = sync HTML, same final position |
+| `compile_spec`, `compileB_spec` (`compile_inOrd`, `compile_oooWf`, `compile_doc`) | proved (Proofs/HydrateStream): `Agree` ⇒ the program is in C07's class of its mode, resolved document = sync HTML, same final position — `Suspend`s nested to any depth (`compileB`: the value of a pending `Suspend`, continuation style, readiness decided at run time) |
+| `C05_nested_suspend_witness`           | kernel-evaluated: a `Suspend` inside the value of a `Suspend`, outer-before-inner and inner-before-outer, both stream forms |
 | `C05_suspend_position_witness_in_order`, `…_out_of_order`, `C05_suspend_position_agree` | F-C05-6 (known finding, class `suspend-position`): the position after a *pending* `Suspend` is guessed (in-order: `NextChild`; out-of-order: unchanged); a wrong guess merges two strings into one text node or adds a `<!>` the client does not expect |
 -/
 namespace Leptos.Hydrate
@@ -349,7 +350,9 @@ in any order; the client hydrates `clientOf v` (every future ready).  `compile` 
 `Position` threaded; the programs are in the classes of C07's theorems (`compile_inOrd`, `compile_oooWf`), so the
 stream machine of `Model/Stream` delivers, for *every* completion schedule, the program's resolved document; and that
 document is the synchronous HTML of the client's view whenever every position guess of a pending `Suspend` is right
-(`Agree`, decidable; `compile_doc`).  Where a guess is wrong the following string gains or loses its `<!>`
+(`Agree`, decidable; `compile_spec`).  A `Suspend` inside the value of a pending `Suspend` is rendered when the outer
+future resolves; whether it is ready then is decided by the stream machine (`compileB`: `Op.ite`), and `Agree` asks
+its guess to be right either way.  Where a guess is wrong the following string gains or loses its `<!>`
 (F-C05-6, class `suspend-position`: `C05_suspend_position_witness_*`). -/
 
 /-- **C05_resolved.** `resolve().await.to_html()` of a view with `Suspend`s is `to_html()` of the client's view
@@ -366,7 +369,7 @@ theorem C05_stream_in_order (v : View) (d0 : List Nat) (sched : List (List Nat))
     (((Stream.startStream false d0 (compile false d0 true v .firstChild).1).polls sched).out.getLast? = some .done →
       Stream.itemsOf ((Stream.startStream false d0 (compile false d0 true v .firstChild).1).polls sched).out
         = toHtml (clientOf v)) := by
-  have h := Stream.C07_in_order _ (compile_inOrd d0 v true .firstChild) d0 sched
+  have h := Stream.C07_in_order _ (compile_inOrd d0 v true .firstChild ha) d0 sched
   refine ⟨h.2.2, fun hl => ?_⟩
   rw [h.2.1 hl, toHtml_clientOf]
   simpa [docOf, toHtml] using (compile_doc false d0 v true .firstChild ha).1
@@ -381,7 +384,7 @@ theorem C05_stream_out_of_order (v : View) (d0 : List Nat) (sched : List (List N
     (((Stream.startStream true d0 (compile true d0 true v .firstChild).1).polls sched).out.getLast? = some .done →
       Stream.applyScripts (Stream.itemsOf ((Stream.startStream true d0 (compile true d0 true v .firstChild).1).polls sched).out)
         = toHtml (clientOf v)) := by
-  have h := Stream.C07_out_of_order _ (compile_oooWf d0 v true .firstChild) hc d0 sched
+  have h := Stream.C07_out_of_order _ (compile_oooWf d0 v true .firstChild ha) hc d0 sched
   refine ⟨h.1, fun hl => ?_⟩
   rw [h.2 hl, toHtml_clientOf]
   simpa [docOf, toHtml] using (compile_doc true d0 v true .firstChild ha).1
@@ -450,6 +453,24 @@ theorem C05_suspend_position_witness_out_of_order :
      | some ts => (hydrateFrom (loadRoot ts).1 (loadRoot ts).2.1 (clientOf exSuspElem)).toOption.isNone
      | none => false) = true ∧
     (stream true [0] [] exSuspElem).html = "a<b></b>c".toList := by decide +kernel
+
+/-- a `Suspend` inside the value of a `Suspend` (`<em>o1</em>`, `Suspend(<b>inner</b>)`, `<i>o2</i>` inside the outer
+    one): its readiness is decided when the outer future resolves (`compileB`, `Op.ite`).  Every guess is right, so
+    `C05_stream_in_order` / `C05_stream_out_of_order` apply; here the outer future resolves while the inner one is
+    still pending, and the other way round (kernel-evaluated) -/
+def exNested : View :=
+  .tuple [.elem "hr" [] .unit,
+    .any (suspTy 0) (.osome (.tuple [.elem "em" [] (.tuple [.text "o1"]),
+      .any (suspTy 1) (.osome (.elem "b" [] (.tuple [.text "inner"]))), .elem "i" [] (.tuple [.text "o2"])]))]
+
+theorem C05_nested_suspend_witness :
+    Agree false [] true exNested .firstChild = true ∧ Agree true [] true exNested .firstChild = true ∧
+    toHtml (clientOf exNested) = "<hr><em>o1</em><b>inner</b><i>o2</i>".toList ∧
+    (stream false [] [[0], [], [1]] exNested).html = toHtml (clientOf exNested) ∧
+    (stream false [] [[1], [], [0]] exNested).html = toHtml (clientOf exNested) ∧
+    (stream true [] [[0], [], [1]] exNested).html = toHtml (clientOf exNested) ∧
+    (stream true [] [[1], [], [0]] exNested).html = toHtml (clientOf exNested) ∧
+    (stream false [1] [[0]] exNested).html = toHtml (clientOf exNested) := by decide +kernel
 
 /-- the other way round both guesses are right: the same two views stream correctly in the other mode -/
 theorem C05_suspend_position_agree :
